@@ -87,7 +87,9 @@ def oracle_T(toks):
     dec = " ".join("%s %s" % (ty, show(v)) for ty, v in items) if items else "-"
     L = len(enc)
     fix = ",".join(["-" if L == 0 else "T", "K:%d:0:same" % L, "K:%d:1:same" % L])
-    return "enc=%s calc=%d dec=%s end=%s cur=%d trunc=ok:%d fix=%s" % (hx(enc), L, dec, ends, L, L, fix)
+    # re: the same stream decoded into pre-filled destinations (stale content of equal / larger / smaller size)
+    # and once more into the same objects: every destination equals the written value exactly
+    return "enc=%s calc=%d dec=%s end=%s cur=%d trunc=ok:%d fix=%s re=ok" % (hx(enc), L, dec, ends, L, L, fix)
 
 
 def oracle_R(toks):
@@ -382,7 +384,7 @@ def differing(kind, a, b):
     """name of what differs between two observation lines (for grouping the reports)"""
     if kind == "T":
         fa, fb = split_T(a), split_T(b)
-        ks = [k for k in ("raw", "enc", "calc", "dec", "end", "cur", "trunc", "fix") if fa.get(k) != fb.get(k)]
+        ks = [k for k in ("raw", "enc", "calc", "dec", "end", "cur", "trunc", "fix", "re") if fa.get(k) != fb.get(k)]
         return "+".join(ks) or "?"
     if kind in ("R", "F"):
         sa, sb = a.split(" ; "), b.split(" ; ")
@@ -531,8 +533,9 @@ def run(ctx):
     ctx.cov["truncation_points_read_back"] = trunc_points
     ctx.rule = ("typed sequences of 0-12 values over %d static types (raw 1-24 bytes, string, const char*, vectors nested to depth 3, "
                 "4 array wrappers x 6 element types through base and derived static type), encoded by BufferWriter / sized by "
-                "WriteSizeCalculator / written to FixedBufferWriters of capacity len-1,len,len+1 / decoded by BufferReader incl. every "
-                "truncation point; raw reader histories (all to length %d over boundary and near-2^64 sizes for several buffer lengths, "
+                "WriteSizeCalculator / written to FixedBufferWriters of capacity len-1,len,len+1 / decoded by BufferReader into fresh "
+                "objects, into pre-filled destinations (stale content of equal, larger and smaller size, nested elements stale) and a "
+                "second time into the same destination objects, incl. every truncation point; raw reader histories (all to length %d over boundary and near-2^64 sizes for several buffer lengths, "
                 "plus random); FixedBufferWriter: all write/reserve size sequences (sizes 0..cap+1) to length 3 for capacities 0..16, "
                 "near-SIZE_MAX sizes, random; raw BufferWriter writes crossing growth boundaries. non-trivial = typed: >=2 values incl. "
                 "a variable-length one, fully read back; reader/fixed writer: history with both an accepted and a rejected call; "
